@@ -109,8 +109,18 @@ def step (_ : Unit) (toks : List String) : Unit × String :=
        let g := if guarded then s!"1 maxrank={C08.maxRank rk}" else "0 maxrank=-"
        let dump := " ".intercalate (annot.reverse.map (fun p => s!"{p.1}:{p.2.arg}:{p.2.env}:{p.2.bind}"))
        if check b annot then ((), s!"ok guarded={g} n={annot.length} " ++ dump)
+       else if checkRel b annot && functional annot then
+         let bad := annot.reverse.filter (fun p => !(handlerDepthOk b p))
+         let descr := " ".intercalate (bad.map (fun p => s!"pc={p.1}/op={((instrAt b p.1).map (·.op)).getD "?"}/env={p.2.env}"))
+         ((), s!"shallow guarded={g} {descr} | " ++ dump)
        else if checkRel b annot then
-         ((), s!"merge guarded={g} envbind={if envBindFunctional annot then 1 else 0} disp={if functionalDisp annot then 1 else 0} {mergeConflict annot} | " ++ dump)
+         let bad := annot.reverse.filter (fun p => !(handlerDepthOk b p))
+         let shallow := ",".intercalate (bad.map (fun p => s!"{p.1}/op={((instrAt b p.1).map (·.op)).getD "?"}/"))
+         let argBindAgree := annot.all (fun p => annot.all (fun q => p.1 != q.1 || (p.2.arg == q.2.arg && p.2.bind == q.2.bind)))
+         let atHandler := match annot.reverse.find? (fun p => annot.any (fun q => p.1 == q.1 && (p.2.arg != q.2.arg || p.2.env != q.2.env || p.2.bind != q.2.bind))) with
+           | some p => b.handlers.any (fun h => h.target == p.1)
+           | none => false
+         ((), s!"merge guarded={g} envbind={if envBindFunctional annot then 1 else 0} disp={if functionalDisp annot then 1 else 0} envonly={if argBindAgree then 1 else 0} athandler={if atHandler then 1 else 0} shallow={if shallow.isEmpty then "-" else shallow} {mergeConflict annot} | " ++ dump)
        else ((), s!"reject guarded={g} " ++ diagnose b annot))
   | _ => ((), "bad-op")
 
